@@ -130,6 +130,18 @@ Proof.
     apply andb_true_iff in Hr as [_ Hr2]. cbn in Hr2. rewrite andb_true_r in Hr2. auto.
 Qed.
 
+(* the same for the path that is actually written: whatever the annotations (present, empty, legacy
+   only, missing) and whatever namespace / kind / name the default path is made from *)
+Theorem pkg_write_res_confined pc r d f :
+  canon_comps pc = true ->
+  pkg_write_res (abs_of pc) r = Ok (d, f) ->
+  exists rest, rest <> [] /\ canon_comps rest = true /\
+               f = abs_of (pc ++ rest) /\ d = abs_of (pc ++ removelast rest).
+Proof.
+  intros Hpc H. unfold pkg_write_res in H.
+  destruct (r_index r) as [[|c s]|]; try discriminate; eapply pkg_write1_confined; eauto.
+Qed.
+
 (* a batch: every target is the package path followed by good names *)
 Theorem pkg_targets_confined pc anns ps :
   canon_comps pc = true ->
